@@ -58,6 +58,16 @@ CLAIMED = {
         note="Trusted: Coq kernel, translator, harness; pathlib semantics (compared on every generated string); pydantic runs the validators on load; symlinks out of scope. That all read sites use validated paths is shown by audit runs, not by theorem.",
         technique="Coq proof (all strings) over AST-generated validators + differential correspondence with pathlib + audit-hook fault injection",
         design="7/C17"),
+    "C01": dict(
+        text="Coq theorems over a model of the FlatBuffers attribute codec on bit patterns (floats never interpreted, so -0.0/NaN payloads/subnormals are covered by construction): little-endian encode/decode inverse for every width and value; "
+             "for every byte-order flag x machine byte order the stored bytes are the little-endian ones (branch table regenerated from the writer's match statement); for every array function (any memory layout), every shape of any rank: "
+             "decode_array(declared width, shape) of the written bytes returns every element; whole-shard round trip with the FlatBuffers container and the compressor as oracles with stated inverse laws; safe integer casts and the TFRecord int64 widening preserve the value; "
+             "compress/decompress tables (regenerated from compress.py) pair every codec with itself. PARTIAL: container, compressors, NumPy float casts, npz and TFRecord encodings, the Rust reader are oracles measured by runs: "
+             "datasets are written for format x compression x dtype x shape x presentation (C/F/strided/reversed/transposed/big-endian/read-only/buffer reused/narrower dtype/scalar/list) x extreme bit patterns, the bytes in the .fb files are compared with the model's, "
+             "and every reader's dtype, shape and bit pattern with what was written; the 8x8 integer cast table is compared with np.can_cast.",
+        note="Trusted: Coq kernel, translator (statement pins), harness; oracles listed in the evidence trusted_base. Known findings F11 (npz trailing NULs of bytes/str), F13 (TFRecord float32 signalling NaNs quieted).",
+        technique="Coq proof (all widths, shapes, layouts, values) over the fb codec with AST-generated byte-order table + byte-level differential correspondence with the written files and all readers",
+        design="7/C01"),
     "C18": dict(
         text="Coq theorems over state machines of the three shard writers with faithful partial mutation (FlatBuffers: vectors built one by one, example referenced last; npz: one buffer per key of the passed dictionary; "
              "TFRecord: validate, build, then write), whose statement order and switches are regenerated from the source: for every attribute list and every sequence of good and bad writes the shard holds exactly the accepted writes in order "
